@@ -128,6 +128,7 @@ class Ctx:
         self.s = world.sched
         self.case = case
         self.H = []
+        self.seq_time = {}
         self.tables = {}
         self.latches = {}
         self.done = {}
@@ -151,7 +152,9 @@ class Ctx:
     def rec(self, aid, oi, phase, data):
         if self.s.teardown or self.s.finished:
             raise TaskKilled()  # the run is over: histories are frozen
-        self.H.append((self.s.next_seq(), aid, oi, phase, data))
+        seq = self.s.next_seq()
+        self.H.append((seq, aid, oi, phase, data))
+        self.seq_time[seq] = self.s.now
 
     def table(self, key):
         t = self.tables.get(key)
